@@ -74,6 +74,20 @@ def checkCase (j : Json) : Except String Verdict := do
   let mut v : Verdict := {}
   let mut profileCache : List ((String × List String) × List String) := []
   if !(getJ j "setupError").isNull then return v.diff 0 "setup" "ok" (getJ j "setupError") ["C07", "C08", "C09", "C10"]
+  -- configuration validation: the service starts only with a non-empty proxy client id *and* secret (otherwise every
+  -- credential comparison of the back channel would be against the empty string)
+  match (jarr j "cfgcheck").toOption with
+  | some rows =>
+    let mut i := 0
+    for r in rows do
+      let want := strD r "id" != "" && strD r "secret" != ""
+      v := v.cmp i "config.valid" want (boolD r "valid") ["C08"]
+      if boolD r "valid" && !want then
+        v := v.mon "C08" "starts_only_with_client_credentials" i s!"id='{strD r "id"}' secret set: {strD r "secret" != ""}; a credential-less /validate got {intD r "credentialLessStatus"}"
+      v := v.br (if want then "cfgcheck/valid" else "cfgcheck/refused")
+      i := i + 1
+    return { v with nontrivial := true }
+  | none => pure ()
   let cfgj ← jget j "cfg"
   let roots := (strs cfgj "roots").map fun d => if d.startsWith "." then d else "." ++ d
   let addresses := strs cfgj "addresses"
